@@ -1255,6 +1255,10 @@ def task_text_write_wiring(scratch, tier, seed, logdir):
         ob.d["queries"] += n
     except (LookupError, ValueError, RuntimeError, KeyError, IndexError) as e:
         ob.fail("inconclusive", f"translator: {type(e).__name__}: {e}")
+    if ob.d["status"] != "holds" and "native_test" not in ob.d:
+        # format_spectrum no longer has the recognised shape (first value + fold closure): the real
+        # writer against format!("{x:.p$}") decides
+        ob.d["native_test"] = dict(crate="sfs-core", file="core/src/spectrum/io/text.rs", name="kv_text_values_exact_precision", code=TEXT_NATIVE_TEST)
     return [ob.done()]
 
 
@@ -2724,8 +2728,31 @@ TASKS = {
 }
 
 
+def _native_registry():
+    return {
+        "header_write_padding": dict(crate="sfs-core", file="core/src/array/npy/header.rs", name="kv_header_write_all_residues", code=HEADER_NATIVE_TEST),
+        "read_site_wiring": dict(crate="sfs-core", file="core/src/input/site/reader.rs", name="kv_read_site_one_record_per_call", code=READ_SITE_SEQ_NATIVE_TEST),
+        "read_site_sample_lookup": dict(crate="sfs-core", file="core/src/input/site/reader.rs", name="kv_read_site_sample_lookup", code=READ_SITE_NATIVE_TEST),
+        "genotype_reader_wiring_vcf": dict(crate="sfs-core", file="core/src/input/genotype/reader/vcf.rs", name="kv_vcf_reader_decodes_every_record", code=GENOTYPE_READER_NATIVE_TEST),
+        "text_write_wiring": dict(crate="sfs-core", file="core/src/spectrum/io/text.rs", name="kv_text_values_exact_precision", code=TEXT_NATIVE_TEST),
+        "write_dispatch_wiring": dict(crate="sfs-core", file="core/src/spectrum/io/write.rs", name="kv_writer_failures_surface", code=WRITE_NATIVE_TEST),
+        "pmf_wiring": dict(crate="sfs-core", file="core/src/utils.rs", name="kv_binomial_and_pmf_against_exact", code=PMF_NATIVE_TEST),
+        "harmonic_wiring": dict(crate="sfs-core", file="core/src/utils.rs", name="kv_harmonic_against_direct_sum", code=HARMONIC_NATIVE_TEST),
+        "projection_wiring": dict(crate="sfs-core", file="core/src/spectrum/project.rs", name="kv_projection_history_independent", code=PROJECTION_NATIVE_TEST),
+        "fold_wiring": dict(crate="sfs-core", file="core/src/spectrum/folded.rs", name="kv_fold_history_independent", code=FOLD_NATIVE_TEST),
+        "project_wiring": dict(crate="sfs-core", file="core/src/spectrum.rs", name="kv_project_against_definition", code=PROJECT_NATIVE_TEST),
+        "view_pipeline": dict(crate="sfs-cli", file="cli/tests/kv_view_is_chain_of_steps.rs", name="kv_view_is_chain_of_steps", code=VIEW_NATIVE_TEST, integration=True),
+    }
+
+
 def run_task(name, scratch, tier, seed, logdir):
     res = TASKS[name](scratch, tier, seed, logdir)
+    # an obligation that did not come out as "holds" (wrong form, unrecognised form, or the translator
+    # could not even find the function) and has a native test: the real code decides (see check)
+    reg = _native_registry()
+    for o in res:
+        if o.get("status") != "holds" and "native_test" not in o and o.get("name") in reg:
+            o["native_test"] = reg[o["name"]]
     with open(os.path.join(logdir, f"mtask-{name}.json"), "w") as fh:
         json.dump(res, fh, indent=1, default=str)
     return res
